@@ -578,20 +578,51 @@ def main(argv):
                 print(f'[tie] {d}')
     except Exception as ex:
         ctx.note(f'exercise tie not evaluated: {ex}')
+    known = load_known()
+
+    def fresh_inputs():
+        return [v for v in ctx.violations if (ctx.id, v.key) not in known and v.found_input]
+
+    found = []
     if ctx.broken:
-        found = []
         try:
             found = mod.search(ctx, ctx.broken) or []
         except Exception as ex:
             import traceback
             traceback.print_exc()
             ctx.note(f'search crashed: {ex}')
-        known = load_known()
-        fresh = [v for v in ctx.violations if (ctx.id, v.key) not in known and v.found_input]
-        if not found and not fresh:      # a KNOWN finding never stands in for the failing input of a broken obligation
-            ctx.violation('broken-obligation:' + ctx.broken[0],
-                          'proof obligations no longer check: ' + ', '.join(ctx.broken[:8]),
-                          {'broken': ctx.broken,
-                           'details': [o for o in ctx.obligations if o[1] != 'discharged'][:10]},
-                          found_input=False)
+    # Escalation: the anchored source differs from the pinned text (or an obligation broke) and no failing input has
+    # been found yet - draw further case streams (other seeds) for the correspondence and the search before giving
+    # up.  Never happens on the pinned text with all obligations discharged, so it costs nothing on an unchanged tree.
+    try:
+        changed = covtie.changed(VERIF, REPO, ctx.id, mod)
+    except Exception:
+        changed = []
+    if (changed or ctx.broken) and not found and not fresh_inputs() and not os.environ.get('VERIF_NO_ESCALATION'):
+        ctx.coverage['escalation'] = {'reason': (changed[:5] or ctx.broken[:5]), 'extra_seeds': []}
+        seed0 = ctx.seed
+        ev0 = ctx.coverage.get('evaluations')
+        for extra in (1, 2):
+            ctx.seed = seed0 + 7919 * extra
+            ctx.coverage['escalation']['extra_seeds'].append(ctx.seed)
+            print(f'[escalate] anchored source changed / obligation broken and no failing input yet: further case stream (seed {ctx.seed})')
+            try:
+                mod.correspondence(ctx)
+                if ctx.broken and not fresh_inputs():
+                    found = mod.search(ctx, ctx.broken) or []
+            except Exception as ex:
+                ctx.note(f'escalation run crashed: {ex}')
+            if isinstance(ev0, int) and isinstance(ctx.coverage.get('evaluations'), int):
+                ev0 = ev0 + ctx.coverage['evaluations']
+                ctx.coverage['evaluations'] = ev0
+            if found or fresh_inputs():
+                break
+        ctx.seed = seed0
+    if ctx.broken and not found and not fresh_inputs():
+        # a KNOWN finding never stands in for the failing input of a broken obligation
+        ctx.violation('broken-obligation:' + ctx.broken[0],
+                      'proof obligations no longer check: ' + ', '.join(ctx.broken[:8]),
+                      {'broken': ctx.broken,
+                       'details': [o for o in ctx.obligations if o[1] != 'discharged'][:10]},
+                      found_input=False)
     return ctx.finish()
